@@ -30,6 +30,7 @@ import (
 	"hash/fnv"
 	"net/http"
 	"os"
+	"runtime"
 	"runtime/debug"
 	"strings"
 	"testing"
@@ -52,6 +53,7 @@ type vcliC18Params struct {
 	Second    bool   `json:"goaway_on_replacement_connection_too"`
 	DelayPct  int    `json:"failpoint_delay_pct"`
 	StartLate int    `json:"requests_started_after_goaway"`
+	Hold      bool   `json:"goaway_while_a_data_write_blocks_the_connection"`
 }
 
 type vcliC18Use struct {
@@ -113,6 +115,9 @@ func vcliC18Session(r *verifrt.R, c *verifrt.Case) {
 		// queued when the GOAWAY arrives must not open a stream on that connection either
 		p.Strict = pick(1, 2, 2, 3, 4)
 	}
+	// The GOAWAY arrives while the socket takes no more bytes: a DATA write sits in conn.Write
+	// holding the connection's write lock, requests that already have a stream id queue behind it.
+	p.Hold = rng.IntN(3) == 0
 	c.Describe(p)
 
 	tr := &Transport{StrictMaxConcurrentStreams: p.Strict > 0}
@@ -305,6 +310,71 @@ func vcliC18Session(r *verifrt.R, c *verifrt.Case) {
 					r.Event("goaway_sent_while_headers_delayed", 1)
 				}
 				goAwaysLeft--
+				if p.Hold {
+					// a settled point: no write is in flight; then the socket stops taking bytes,
+					// a stalled upload gets window and its DATA write blocks under the write lock.
+					// While a goroutine waits for that lock (sync.Mutex: not a durable block) the
+					// bubble cannot settle and its clock stands still, so this stretch polls with
+					// Gosched instead of synctest.Wait.
+					s.Settle()
+					var up *vcliStream
+					for _, st := range sh.order {
+						rq := reqByTag[st.tag]
+						if rq != nil && st.hdrDone && st.cliCanSend() && !st.closed && rq.BodyLen-st.dataBytes > 0 && (st.win <= 0 || sh.connWin <= 0) {
+							up = st
+						}
+					}
+					cc := sc.NC.cc.Load()
+					if up != nil && !sc.Dead && cc != nil {
+						spin := func(cond func() bool) bool {
+							for i := 0; i < 2000000; i++ {
+								if cond() {
+									return true
+								}
+								runtime.Gosched()
+							}
+							return false
+						}
+						sc.NC.holdWrites(true)
+						if up.win <= 0 {
+							sc.SendWindowUpdate(up.id, uint32(-up.win+1+int64(rng.IntN(3000))))
+						}
+						if sh.connWin <= 0 {
+							sc.SendWindowUpdate(0, uint32(-sh.connWin+1+int64(rng.IntN(3000))))
+						}
+						if spin(sc.NC.writeBlocked) {
+							r.Event("goaway_sent_while_a_data_write_blocked_the_connection", 1)
+							cc.mu.Lock()
+							id0 := cc.nextStreamID
+							cc.mu.Unlock()
+							before := next
+							for k := 0; k < 1+rng.IntN(3); k++ {
+								startOne()
+							}
+							want := id0 + 2*uint32(next-before)
+							if next > before && spin(func() bool { cc.mu.Lock(); defer cc.mu.Unlock(); return cc.nextStreamID >= want }) {
+								r.Event("requests_given_a_stream_id_while_the_connection_write_was_blocked", int64(next-before))
+							}
+							for i := 0; i < 100000; i++ { // let them reach the write lock
+								runtime.Gosched()
+							}
+							sendGoAway(sc, step)
+							if spin(func() bool { cc.mu.Lock(); defer cc.mu.Unlock(); return cc.goAway != nil }) && sh.goAwayLast < id0 {
+								// The client has processed the GOAWAY (white-box) while the only write in
+								// flight is the blocked DATA frame, and every stream id handed out since is
+								// above L: whatever stream-opening HEADERS follow were written after the
+								// GOAWAY took effect, exactly as after a quiescent point.
+								sh.goAwaySettled = true
+								r.Event("goaway_processed_by_the_client_while_a_data_write_blocked_the_connection", 1)
+							}
+						} else {
+							sendGoAway(sc, step)
+						}
+						sc.NC.holdWrites(false)
+						s.Settle()
+						continue
+					}
+				}
 				sendGoAway(sc, step)
 				continue
 			}
